@@ -512,7 +512,7 @@ def run_server_side(ctx):
             plan.append(("bad", which, kind))
     plan = [c for i, c in enumerate(plan) if ctx.mine(i)]
     reps = ctx.pick(2, 12)
-    extra = ctx.pick(250, 2500)
+    extra = ctx.pick(250, 2000)
     todo = plan * reps + [(rng.choice(["ext", "ext", "session", "trunc", "burst"]),) for _ in range(extra)]
     rng.shuffle(todo)
     fz = None
@@ -974,7 +974,7 @@ def blocked(ctx, bench, prog, desc, nreq, nresp, others):
 
 
 def run_client_side(ctx):
-    n = ctx.pick(32, 400)
+    n = ctx.pick(32, 300)
     for i in range(n):
         client_case(ctx, i)
 
@@ -994,6 +994,6 @@ def run(ctx):
     ctx.require("requests_unsupported", ctx.pick(400, 2400))
     ctx.require("requests_unsupported_extension", ctx.pick(200, 2000))
     ctx.require("requests_range_past_EOF", ctx.pick(40, 400))
-    ctx.require("client_programs_run", ctx.pick(200, 5000))
+    ctx.require("client_programs_run", ctx.pick(200, 3000))
     ctx.require("client_pipelined_write_requests", ctx.pick(10000, 200000))
     ctx.require("gate_releases", ctx.pick(500, 10000))
